@@ -22,7 +22,8 @@ ATT = 'mitxgraders/attemptcredit.py'
 LIN = 'mitxgraders/comparers/linear_comparer.py'
 CMP = 'mitxgraders/comparers/comparers.py'
 SD = 'mitxgraders/helpers/calc/specify_domain.py'
-FILES = [BASE, VF, MH, LG, SG, FGF, MGF, IVF, IGF, SAM, MSAM, ATT, LIN, CMP, SD]
+VOL = 'voluptuous/validators.py'
+FILES = [BASE, VF, MH, LG, SG, FGF, MGF, IVF, IGF, SAM, MSAM, ATT, LIN, CMP, SD, VOL]
 
 EXPLANATION = (
     "Table, order and reachability rules over schema terms extracted from the source (E10; nothing imported): "
@@ -34,7 +35,8 @@ EXPLANATION = (
     "under the given configuration, coerce2unicode, validate_config, result stored; subclass constructors delegate before "
     "reading self.config; (D5) every cross-option rule of the property has a reachable ConfigError/Invalid raise site with the "
     "reviewed condition, called on every construction path; (D6) validator helpers (Positive, NonNegative, NumberRange, "
-    "ListOfType/TupleOfType, PercentageString, is_shape_specification, Nullable) and the domains of the numeric options; "
+    "ListOfType/TupleOfType, PercentageString, is_shape_specification, Nullable), the domains of the numeric options, and the "
+    "vendored Range validator refusing unordered values (NaN) with the right strict/inclusive comparison per flag; "
     "(D7) canonical answers form and schema_answer keys/defaults.")
 NOT_DECIDED = ("the vendored voluptuous engine; acceptance of every in-domain value; idempotence of re-validation and "
                "equality of Grader(obj.config) with obj (value-level); validators that are author callables.")
@@ -98,6 +100,7 @@ def check(ctx):
     d5_cross(ctx, idx, fam)
     d6_helpers(ctx, idx, fam)
     d6_domains(ctx, idx, fam)
+    d6_range(ctx, idx, fam)
     d7_answers(ctx, idx, fam)
 
 
@@ -141,7 +144,7 @@ def _cls(q):
 # ----------------------------------------------------------------------------- D1
 def d1_markers(ctx, idx, fam):
     r = ctx.rule('D1.MARKERS', 'every option is declared Required(..., default=...) except the reviewed mandatory / optional keys',
-                 floor=150)
+                 floor=199)
     with r:
         n_dict = n_abs = 0
         for ci in fam.classes:
@@ -183,6 +186,8 @@ def d1_markers(ctx, idx, fam):
                 elif o.marker == 'Optional':
                     if key in OPTIONAL_OK:
                         r.ok(construct, 'reviewed Optional key', where)
+                    elif o.has_default:
+                        r.ok(construct, 'Optional with default %s (filled in like a Required default)' % o.default.text()[:40], where)
                     else:
                         r.violation(construct, "option '%s' of %s is declared Optional: when omitted it is absent from obj.config "
                                     "(no default is filled in) and code reading self.config['%s'] raises KeyError"
@@ -222,7 +227,7 @@ def schema_answer_table(idx, fam):
 
 # ----------------------------------------------------------------------------- D2
 def d2_docstrings(ctx, idx, fam):
-    r = ctx.rule('D2.DOCSTRING', 'each default literal equals the default stated in the class docstring', floor=135)
+    r = ctx.rule('D2.DOCSTRING', 'each default literal equals the default stated in the class docstring', floor=102)
     with r:
         skipped = {'not mentioned': 0, 'no default stated': 0, 'non-literal': 0}
         for ci in fam.classes:
@@ -277,7 +282,7 @@ def d2_docstrings(ctx, idx, fam):
 
 
 def d2_docs(ctx, idx, fam):
-    r = ctx.rule('D2.DOCS', "defaults in the armed 'Option(s) Listing' blocks of docs/*.md equal the schema defaults", floor=90)
+    r = ctx.rule('D2.DOCS', "defaults in the armed 'Option(s) Listing' blocks of docs/*.md equal the schema defaults", floor=76)
     with r:
         n_list = 0
         slips_seen = set()
@@ -335,7 +340,7 @@ def d2_docs(ctx, idx, fam):
 # ----------------------------------------------------------------------------- D3
 def d3_extra(ctx, idx, fam):
     r = ctx.rule('D3.EXTRA', 'unknown option names are rejected: no extra= on a schema and no Extra marker outside the four '
-                             'reviewed sub-options', floor=47)
+                             'reviewed sub-options', floor=45)
     with r:
         # (a) per class: the top level of the configuration schema is closed
         for ci in fam.classes:
@@ -442,7 +447,7 @@ def _enclosing_name(idx, m, node):
 # ----------------------------------------------------------------------------- D4
 def d4_init(ctx, idx, fam):
     r = ctx.rule('D4.INIT', 'constructor pipeline: kwargs iff config is None, registered defaults under the given configuration, '
-                            'coerce2unicode, validate_config, result stored; subclasses delegate first', floor=28)
+                            'coerce2unicode, validate_config, result stored; subclasses delegate first', floor=25)
     with r:
         fi = idx.func(OWS + '.__init__')
         params = fi.params
@@ -507,9 +512,27 @@ def d4_init(ctx, idx, fam):
                             expected='self.apply_registered_defaults(use_config)', found=short(u))
                 continue
             want = kw if none_pos else cfgp
+            if isinstance(src, ast.IfExp):
+                res = nf.classify(['%s if %s is None else %s' % (kw, cfgp, cfgp), '%s if %s is not None else %s' % (cfgp, cfgp, kw)], src)
+                if res == nf.MATCH:
+                    for lab in ('config is None', 'config given'):
+                        r.ok('ObjectWithSchema.__init__ [%s%s]' % (lab, ', dict' if is_dict else ''),
+                             'validate_config(coerce2unicode(%skwargs if config is None else config))' % ('defaults + ' if is_dict else ''), where)
+                    stored += 2
+                elif isinstance(res, tuple):
+                    r.violation(construct, 'the configuration source changed: %s' % res[1], where,
+                                expected='kwargs if config is None else config', found=short(src))
+                else:
+                    r.undecided(construct, 'configuration source not recognised: %s' % short(src), where)
+                continue
             if not (none_pos or none_neg):
-                r.violation(construct, 'the configuration source is `%s` whether or not a config dict is given (no `config is None` '
-                            'selection)' % short(src), where, expected='kwargs if config is None else config')
+                if any(cfgp in lib.names_in(g) for g in p.guards) or not (isinstance(src, ast.Name) and src.id in (kw, cfgp)):
+                    r.undecided(construct, 'selection of the configuration source not recognised (guards: %s)'
+                                % ' and '.join(unparse(g) for g in p.guards), where)
+                else:
+                    r.violation(construct, '`%s` is used as the configuration whether or not a config dict is given: %s' % (
+                        src.id, 'a configuration passed as a dict is ignored' if src.id == kw else 'keyword options are ignored'), where,
+                        expected='kwargs if config is None else config', found=src.id)
                 continue
             if isinstance(src, ast.Name) and src.id == want:
                 r.ok(construct, 'validate_config(coerce2unicode(%s%s))' % ('defaults + ' if is_dict else '', want), where)
@@ -562,8 +585,9 @@ def d4_init(ctx, idx, fam):
                 user = [w for w in writes if isinstance(w, ast.Call) and w.func.attr == 'update' and len(w.args) == 1
                         and isinstance(w.args[0], ast.Name) and w.args[0].id == cparam]
                 if not user:
-                    r.violation('ObjectWithSchema.apply_registered_defaults', 'the given configuration is never merged into the result: '
-                                'the author\'s options are dropped', ar.loc, expected='%s.update(%s)' % (acc, cparam))
+                    r.violation('ObjectWithSchema.apply_registered_defaults', 'the given configuration is not merged over the registered '
+                                'defaults with %s.update(%s): the author\'s options are dropped or overridden by registered defaults'
+                                % (acc, cparam), ar.loc, expected='%s.update(%s) as the last write' % (acc, cparam))
                 else:
                     un = lib.cfg_nodes_for(cfg, user[0])
                     rn = cfg.nodes_of(rets[0])
@@ -640,6 +664,10 @@ def d4_init(ctx, idx, fam):
                 # the local may be updated after its creation (default subgrader); find its defining assignment
                 defs = lib.assigned_value(f.node, c.args[0].id)
                 res = nf.classify(pats, defs[0]) if defs else nf.UNRECOGNISED
+                one = defs[0].args[0] if defs and isinstance(defs[0], ast.Call) and nf.callee_name(defs[0]) == 'dict' and \
+                    len(defs[0].args) == 1 else (defs[0] if defs else None)
+                if res != nf.MATCH and isinstance(one, ast.Name) and one.id in (cfg_name, kwn):
+                    res = ('DIFF', 'only `%s` is used, whether or not a config dict is given' % one.id)
                 if res == nf.MATCH:
                     r.ok(construct, 'delegates a copy of (config or kwargs)', lib.loc(f, c))
                 elif isinstance(res, tuple):
@@ -653,7 +681,21 @@ def d4_init(ctx, idx, fam):
         # MatrixGrader peeks at the unvalidated configuration: same selection rule
         mg = idx.func('mitxgraders.formulagrader.matrixgrader.MatrixGrader.__init__')
         sel = [n for n in walk_own(mg.node) if isinstance(n, ast.IfExp)]
-        if len(sel) == 1:
+        comps = [n for n in walk_own(mg.node) if isinstance(n, ast.DictComp)]
+        peeked = set()
+        for dc in comps:
+            for n in ast.walk(dc):
+                if isinstance(n, ast.Name) and n.id in (mg.params[1], mg.node.args.kwarg.arg):
+                    peeked.add(n.id)
+                elif isinstance(n, ast.Name):
+                    for v in lib.assigned_value(mg.node, n.id):
+                        if isinstance(v, ast.Name) and v.id in (mg.params[1], mg.node.args.kwarg.arg):
+                            peeked.add(v.id)
+        if not sel and len(peeked) == 1:
+            r.violation('MatrixGrader.__init__ [unvalidated peek]', 'the entry_partial_* keys are looked up only in `%s`, whether or not a '
+                        'config dict is given: MatrixGrader(dict) and MatrixGrader(**dict) behave differently' % sorted(peeked)[0], mg.loc,
+                        expected='config if config is not None else kwargs', found=sorted(peeked)[0])
+        elif len(sel) == 1:
             cfgn, kwn = mg.params[1], mg.node.args.kwarg.arg
             res = nf.classify(['%s if %s is not None else %s' % (cfgn, cfgn, kwn), '%s if %s is None else %s' % (kwn, cfgn, cfgn)], sel[0])
             if res == nf.MATCH:
@@ -831,7 +873,7 @@ ERROR_BASES = ('ConfigError', 'Invalid', 'MultipleInvalid', 'MITxError')
 
 def d5_cross(ctx, idx, fam):
     r = ctx.rule('D5.CROSS', 'every cross-option rule has a reachable raise site with the reviewed condition, and its checker '
-                             'runs on every construction path', floor=47)
+                             'runs on every construction path', floor=48)
     with r:
         used = {}
         for c in CROSS_RULES:
@@ -976,3 +1018,742 @@ def d5_cross(ctx, idx, fam):
         r.check(ok, 'validate_math_config: sample_from', 're-validated with a schema over variables + numbered_vars',
                 "config['sample_from'] is no longer validated against the declared variables: entries for undeclared variables are "
                 "accepted", vm.loc)
+
+
+# ----------------------------------------------------------------------------- D6
+INF = tables.INF
+
+
+def nv(t):
+    """Normal form of a validator term (nested tuples); ('opaque', text) for what is not modelled."""
+    k = t.kind
+    if k == 'const':
+        v = t.value
+        if isinstance(v, list):
+            v = tuple(v)
+        return ('const', v)
+    if k in ('name', 'func'):
+        return ('name', tables._short_name(t.name))
+    if k == 'list':
+        return ('list',) + tuple(nv(a) for a in t.args)
+    if k == 'tuple':
+        return ('tuple',) + tuple(nv(a) for a in t.args)
+    if k == 'dict':
+        return ('dict',) + tuple((nv(a), nv(b)) for a, b in t.items)
+    if k == 'schema':
+        tab = t.value
+        if tab.is_dict:
+            return ('schema', tab.text())
+        return nv(tab.other)
+    if k == 'lambda':
+        lam = t.node
+        if len(lam.args.args) == 1 and isinstance(lam.body, ast.Tuple) and len(lam.body.elts) == 1 and \
+                isinstance(lam.body.elts[0], ast.Name) and lam.body.elts[0].id == lam.args.args[0].arg:
+            return ('wrap-in-tuple',)
+        return ('opaque', t.text())
+    if k == 'call':
+        n = t.name
+        if n in ('All', 'Any'):
+            args = tuple(nv(a) for a in t.args)
+            return (n, frozenset(args)) if n == 'Any' else (n,) + args
+        if n == 'Range':
+            names = ['min', 'max', 'min_included', 'max_included']
+            vals = {'min': None, 'max': None, 'min_included': True, 'max_included': True}
+            for nm, a in zip(names, t.args):
+                vals[nm] = tables.term_value(a)
+            for nm, a in t.kwargs.items():
+                if nm in vals:
+                    vals[nm] = tables.term_value(a)
+            if not all(tables.is_literal(v) for v in vals.values()):
+                return ('opaque', t.text())
+            lo = -INF if vals['min'] is None else vals['min']
+            hi = INF if vals['max'] is None else vals['max']
+            return ('Range', lo, hi, bool(vals['min_included']), bool(vals['max_included']))
+        if n == 'Length':
+            vals = {'min': None, 'max': None}
+            for nm, a in zip(['min', 'max'], t.args):
+                vals[nm] = tables.term_value(a)
+            for nm, a in t.kwargs.items():
+                if nm in vals:
+                    vals[nm] = tables.term_value(a)
+            if not all(tables.is_literal(v) for v in vals.values()):
+                return ('opaque', t.text())
+            return ('Length', 0 if vals['min'] is None else vals['min'], INF if vals['max'] is None else vals['max'])
+        if n in ('NotIn', 'In', 'Coerce', 'Schema') and len(t.args) >= 1:
+            return (n, nv(t.args[0]))
+        if t.callee is not None and t.callee.kind == 'func':
+            return ('helper', n) + tuple(nv(a) for a in t.args)
+        return ('opaque', t.text())
+    if k == 'selfattr':
+        return ('self', t.name)
+    return ('opaque', t.text())
+
+
+def has_opaque(x):
+    if isinstance(x, tuple):
+        if x and x[0] == 'opaque':
+            return True
+        return any(has_opaque(y) for y in x)
+    if isinstance(x, frozenset):
+        return any(has_opaque(y) for y in x)
+    return False
+
+
+def show_nv(x):
+    if isinstance(x, frozenset):
+        return '{%s}' % ', '.join(sorted(show_nv(y) for y in x))
+    if not isinstance(x, tuple):
+        return tables.show(x)
+    if not x:
+        return '()'
+    h = x[0]
+    if h == 'const':
+        return tables.show(x[1])
+    if h == 'name':
+        return x[1]
+    if h == 'Any':
+        return 'Any(%s)' % ', '.join(sorted(show_nv(y) for y in x[1]))
+    if h == 'Range':
+        return 'Range(%s, %s%s%s)' % (tables.show(x[1]), tables.show(x[2]), '' if x[3] else ', min excluded', '' if x[4] else ', max excluded')
+    if h == 'list':
+        return '[%s]' % ', '.join(show_nv(y) for y in x[1:])
+    if h == 'tuple':
+        return '(%s,)' % ', '.join(show_nv(y) for y in x[1:])
+    if h in ('All', 'Length', 'NotIn', 'In', 'Coerce', 'Schema', 'helper'):
+        return '%s(%s)' % (h if h != 'helper' else x[1], ', '.join(show_nv(y) for y in (x[1:] if h != 'helper' else x[2:])))
+    return str(x[1]) if len(x) > 1 else h
+
+
+def T(name):
+    return ('name', name)
+
+
+def K(v):
+    return ('const', v)
+
+
+def ALL(*a):
+    return ('All',) + a
+
+
+def ANY(*a):
+    return ('Any', frozenset(a))
+
+
+def RANGE(lo, hi):
+    return ('Range', lo, hi, True, True)
+
+
+P_INT = ALL(T('int'), RANGE(1, INF))
+NN_INT = ALL(T('int'), RANGE(0, INF))
+NN_NUM = ALL(T('Number'), RANGE(0, INF))
+P_NUM = ALL(T('Number'), RANGE(0, INF), ('NotIn', ('list', K(0))))
+UNIT_F = ANY(ALL(T('float'), RANGE(0, 1)), K(0), K(1))
+TOL = ANY(T('PercentageString'), NN_NUM)
+VFQ = 'mitxgraders.helpers.validatorfuncs.'
+
+
+def name_term(n):
+    return tables.Term('name', name=n)
+
+
+def d6_helpers(ctx, idx, fam):
+    r = ctx.rule('D6.HELPERS', 'validator helpers accept exactly their documented domains', floor=21)
+    with r:
+        ev = fam.ev
+        vmod = idx.module('mitxgraders.helpers.validatorfuncs')
+
+        def call_helper(name, *args, **kwargs):
+            fi = idx.func(VFQ + name)
+            callee = tables.Term('func', name=fi.qualname, value=fi)
+            return fi, ev.apply(callee, list(args), dict(kwargs), fi.node, tables.Scope(vmod))
+
+        def expect(construct, name, args, want, why):
+            fi, t = call_helper(name, *args)
+            got = nv(t)
+            if got == want:
+                r.ok(construct, '= ' + show_nv(want), fi.loc)
+            elif has_opaque(got) or (got and got[0] == 'helper'):
+                r.undecided(construct, 'helper body not evaluable: %s' % t.text()[:80], fi.loc)
+            else:
+                r.violation(construct, '%s: %s' % (why, 'it now validates with %s' % show_nv(got)), fi.loc,
+                            expected=show_nv(want), found=show_nv(got))
+
+        expect('Positive(int)', 'Positive', [name_term('int')], P_INT,
+               'Positive(int) must accept exactly the integers >= 1 (zero samples / zero steps are out of domain)')
+        for tn, short_ in (('float', 'float'), ('numbers.Number', 'Number')):
+            expect('Positive(%s)' % short_, 'Positive', [name_term(tn)], ALL(T(short_), RANGE(0, INF), ('NotIn', ('list', K(0)))),
+                   'Positive(%s) must accept exactly the numbers > 0' % short_)
+        for tn, short_ in (('int', 'int'), ('numbers.Number', 'Number')):
+            expect('NonNegative(%s)' % short_, 'NonNegative', [name_term(tn)], ALL(T(short_), RANGE(0, INF)),
+                   'NonNegative(%s) must accept exactly the numbers >= 0' % short_)
+        expect('Nullable(str)', 'Nullable', [name_term('str')], ANY(K(None), T('str')), 'Nullable(T) must accept None or T')
+        # NumberRange
+        fi, t = call_helper('NumberRange', name_term('numbers.Number'))
+        tab = ev.as_schema(t) if t.kind != 'schema' else t.value
+        if tab is None or not tab.is_dict:
+            r.undecided('NumberRange', 'schema not recognised: %s' % t.text()[:80], fi.loc)
+        else:
+            for key, dflt in (('start', 1), ('stop', 5)):
+                o = tab.opts.get(key)
+                okk = o is not None and o.marker == 'Required' and o.has_default and tables.values_equal(o.default_value, dflt) \
+                    and nv(o.validator) == T('Number')
+                r.check(okk, "NumberRange['%s']" % key, "Required('%s', default=%d): number type" % (key, dflt),
+                        "the dictionary form of a number range changed for '%s': %s" % (key, o.text() if o is not None else 'key missing'),
+                        fi.loc, expected="Required('%s', default=%d): number_type" % (key, dflt))
+            alts = [a for a in tab.alternatives if a.is_call('number_range_alternate')]
+            r.check(len(alts) == 1 and len(tab.alternatives) == 1, 'NumberRange [list form]', 'second alternative number_range_alternate(number_type)',
+                    'the [start, stop] list form of a number range is no longer accepted (alternatives: %s)' % [a.text()[:40] for a in tab.alternatives],
+                    fi.loc)
+        alt = idx.func(VFQ + 'number_range_alternate.<locals>.validatorfunc')
+        lens = [c for c in walk_own(alt.node) if isinstance(c, ast.Call) and nf.callee_name(c) == 'Length']
+        if len(lens) != 1:
+            r.violation('number_range_alternate [length]', 'the list form of a range is no longer restricted to exactly two entries',
+                        alt.loc, expected='Length(min=2, max=2)')
+        else:
+            lt = nv(ev.eval(lens[0], tables.Scope(vmod)))
+            r.check(lt == ('Length', 2, 2), 'number_range_alternate [length]', 'exactly two entries',
+                    'a [start, stop] list may now have %s' % show_nv(lt), lib.loc(alt, lens[0]), expected='Length(min=2, max=2)',
+                    found=show_nv(lt))
+        rets = lib.returns_of(alt.node)
+        okr = len(rets) == 1 and nf.classify("{'start': _L[0], 'stop': _L[1]}", rets[0].value) == nf.MATCH
+        resr = nf.classify("{'start': _L[0], 'stop': _L[1]}", rets[0].value) if len(rets) == 1 else nf.UNRECOGNISED
+        if okr:
+            r.ok('number_range_alternate [result]', "{'start': l[0], 'stop': l[1]}", alt.loc)
+        elif isinstance(resr, tuple):
+            r.violation('number_range_alternate [result]', 'the list form is converted wrongly: %s' % resr[1], lib.loc(alt, rets[0]),
+                        expected="{'start': l[0], 'stop': l[1]}", found=short(rets[0].value))
+        else:
+            r.undecided('number_range_alternate [result]', 'not recognised', alt.loc)
+        # ListOfType / TupleOfType: wrap singletons, at least one element
+        for helper, container, wrapped in (('ListOfType', 'list', '[_X]'), ('TupleOfType', 'tuple', '(_X,)')):
+            f = idx.func(VFQ + helper + '.<locals>.func')
+            param = f.params[0]
+            wraps = False
+            for n in walk_own(f.node):
+                if isinstance(n, ast.If) and nf.classify('not isinstance(%s, %s)' % (param, container), n.test) == nf.MATCH:
+                    for s in n.body:
+                        if isinstance(s, ast.Assign) and isinstance(s.targets[0], ast.Name) and s.targets[0].id == param and \
+                                nf.classify(wrapped, s.value, {'_X': ast.Name(id=param, ctx=ast.Load())}) == nf.MATCH:
+                            wraps = True
+            r.check(wraps, '%s [singleton]' % helper, 'a single value is wrapped into a %s' % container,
+                    '%s no longer wraps a single value into a %s: the documented single-value form is refused' % (helper, container), f.loc)
+            schemas = [c for c in walk_own(f.node) if isinstance(c, ast.Call) and nf.callee_name(c) == 'Schema']
+            bad = []
+            for sc in schemas:
+                lens = [c for c in ast.walk(sc) if isinstance(c, ast.Call) and nf.callee_name(c) == 'Length']
+                if len(lens) != 1 or nv(ev.eval(lens[0], tables.Scope(vmod))) != ('Length', 1, INF):
+                    bad.append(sc)
+            if not schemas:
+                r.undecided('%s [non-empty]' % helper, 'no Schema call found', f.loc)
+            else:
+                r.check(not bad, '%s [non-empty]' % helper, 'Length(min=1) in all %d schema variants' % len(schemas),
+                        '%s accepts an empty %s (or restricts the length differently): `%s`' % (helper, container, short(bad[0]) if bad else ''),
+                        lib.loc(f, bad[0]) if bad else f.loc, expected='Length(min=1)')
+        # PercentageString
+        ps = idx.func(VFQ + 'PercentageString')
+        negs = [n for n in walk_own(ps.node) if isinstance(n, ast.If) and any(isinstance(s, ast.Raise) and
+                nf.exc_class_name(s.exc) == 'Invalid' for s in n.body)]
+        res = nf.classify('_P < 0', negs[0].test) if len(negs) == 1 else nf.UNRECOGNISED
+        if res == nf.MATCH:
+            r.ok('PercentageString [sign]', 'negative percentages raise Invalid', lib.loc(ps, negs[0]))
+            # same NaN consideration as for Range (RAW ast: nf.canon identifies `not p >= 0` with `p < 0`)
+            t = negs[0].test
+            negated = isinstance(t, ast.UnaryOp) and isinstance(t.op, ast.Not) and isinstance(t.operand, ast.Compare)
+            nan_guard = any(isinstance(c, ast.Call) and nf.callee_name(c) in ('isnan', 'isfinite') for c in ast.walk(ps.node)) or \
+                any(isinstance(c, ast.Compare) and len(c.ops) == 1 and isinstance(c.ops[0], (ast.NotEq, ast.Eq)) and
+                    isinstance(c.left, ast.Name) and isinstance(c.comparators[0], ast.Name) and c.left.id == c.comparators[0].id
+                    for c in ast.walk(ps.node))
+            if negated or nan_guard:
+                r.ok('PercentageString [unordered]', "'nan%' is refused", lib.loc(ps, negs[0]))
+            elif isinstance(t, ast.Compare):
+                r.violation('PercentageString [unordered]', "the sign test is the positive form `%s`: float('nan') < 0 is False, so the "
+                            "string 'nan%%' is accepted as a valid percentage -- FormulaGrader(answers='1', tolerance='nan%%') is "
+                            "constructed (tolerance is documented as 'positive or zero') and then grades the exact answer '1' as "
+                            "incorrect, because no difference is <= nan" % short(t), lib.loc(ps, negs[0]),
+                            expected='if not percent >= 0: raise Invalid(...)', found=short(t))
+            else:
+                r.undecided('PercentageString [unordered]', 'sign test not recognised: %s' % short(t), lib.loc(ps, negs[0]))
+        elif isinstance(res, tuple):
+            r.violation('PercentageString [sign]', 'the sign check of percentages changed: %s' % res[1], lib.loc(ps, negs[0]),
+                        expected='percent < 0', found=short(negs[0].test))
+        elif not negs:
+            r.violation('PercentageString [sign]', 'negative percentages are no longer refused', ps.loc, expected='if percent < 0: raise Invalid')
+        else:
+            r.undecided('PercentageString [sign]', 'not recognised', ps.loc)
+        last = ps.node.body[-1]
+        r.check(isinstance(last, ast.Raise) and nf.exc_class_name(last.exc) == 'Invalid', 'PercentageString [fallthrough]',
+                'anything else raises Invalid', 'values that are not percentage strings are no longer refused with Invalid (last statement `%s`)'
+                % short(last), lib.loc(ps, last), expected='raise Invalid(...)')
+        ends = [n for n in walk_own(ps.node) if isinstance(n, ast.If) and nf.classify("_W.endswith('%')", n.test) == nf.MATCH]
+        rets = lib.returns_of(ps.node)
+        inside = ends and all(any(rt is x for s in ends[0].body for x in ast.walk(s)) for rt in rets)
+        r.check(bool(inside) and bool(rets), 'PercentageString [suffix]', "only strings ending in '%' are accepted",
+                "a value is returned as a valid percentage without the check that it ends in '%'", ps.loc)
+        # is_shape_specification
+        fi, t = call_helper('is_shape_specification')
+        got = nv(t)
+        want = ALL(ANY(ALL(P_INT, ('wrap-in-tuple',)), ('tuple', P_INT), ALL(('list', P_INT), ('Coerce', T('tuple')))),
+                   ('Length', 1, INF))
+        if got == want:
+            r.ok('is_shape_specification', 'positive int | tuple | list of positive ints, length within [min_dim, max_dim]', fi.loc)
+        elif has_opaque(got):
+            r.undecided('is_shape_specification', 'not evaluable: %s' % t.text()[:100], fi.loc)
+        else:
+            r.violation('is_shape_specification', 'the domain of array shapes changed', fi.loc, expected=show_nv(want), found=show_nv(got))
+        fi, t = call_helper('is_shape_specification', min_dim=tables.Term('const', value=2), max_dim=tables.Term('const', value=2))
+        got = nv(t)
+        r.check(isinstance(got, tuple) and got and got[-1] == ('Length', 2, 2), 'is_shape_specification [dims]',
+                'min_dim/max_dim bound the number of dimensions', 'min_dim/max_dim are not passed to Length(min=min_dim, max=max_dim): %s'
+                % show_nv(got[-1] if isinstance(got, tuple) and got else got), fi.loc, expected='Length(min=min_dim, max=max_dim)')
+
+
+G = 'mitxgraders.'
+DOMAIN_SPEC = [
+    (G + 'formulagrader.formulagrader.FormulaGrader', 'samples', P_INT), (G + 'formulagrader.formulagrader.FormulaGrader', 'failable_evals', NN_INT),
+    (G + 'formulagrader.formulagrader.FormulaGrader', 'tolerance', TOL),
+    (G + 'formulagrader.formulagrader.FormulaGrader', 'max_array_dim', NN_INT),
+    (G + 'formulagrader.formulagrader.FormulaGrader', 'whitelist', ANY(ALL(('list', K(None)), ('Length', 1, 1)), ('list', T('str')))),
+    (G + 'formulagrader.formulagrader.FormulaGrader', 'variables', ALL(('list', T('str')), T('all_unique'))),
+    (G + 'formulagrader.formulagrader.FormulaGrader', 'numbered_vars', ALL(('list', T('str')), T('all_unique'))),
+    (G + 'formulagrader.formulagrader.NumericalGrader', 'tolerance', TOL), (G + 'formulagrader.formulagrader.NumericalGrader', 'samples', K(1)),
+    (G + 'formulagrader.formulagrader.NumericalGrader', 'failable_evals', K(0)),
+    (G + 'formulagrader.integralgrader.IntegralGrader', 'samples', P_INT), (G + 'formulagrader.integralgrader.IntegralGrader', 'tolerance', TOL),
+    (G + 'formulagrader.integralgrader.IntegralGrader', 'failable_evals', NN_INT),
+    (G + 'formulagrader.integralgrader.SumGrader', 'samples', P_INT), (G + 'formulagrader.integralgrader.SumGrader', 'tolerance', TOL),
+    (G + 'formulagrader.integralgrader.SumGrader', 'infty_val', P_NUM), (G + 'formulagrader.integralgrader.SumGrader', 'infty_val_fact', P_NUM),
+    (G + 'formulagrader.integralgrader.SumGrader', 'even_odd', ANY(K(0), K(1), K(2))),
+    (G + 'formulagrader.matrixgrader.MatrixGrader', 'max_array_dim', ANY(K(None), NN_INT)),
+    (G + 'formulagrader.matrixgrader.MatrixGrader', 'identity_dim', ANY(K(None), NN_INT)),
+    (G + 'formulagrader.matrixgrader.MatrixGrader', 'entry_partial_credit', ANY(ALL(T('Number'), RANGE(0, 1)), K('proportional'))),
+    (G + 'formulagrader.intervalgrader.IntervalGrader', 'opening_brackets', ALL(T('str'), ('Length', 1, INF))),
+    (G + 'formulagrader.intervalgrader.IntervalGrader', 'closing_brackets', ALL(T('str'), ('Length', 1, INF))),
+    (G + 'stringgrader.StringGrader', 'min_length', NN_INT), (G + 'stringgrader.StringGrader', 'min_words', NN_INT),
+    (G + 'stringgrader.StringGrader', 'explain_minimums', ANY(K('err'), K('msg'), K(None))),
+    (G + 'stringgrader.StringGrader', 'explain_validation', ANY(K('err'), K('msg'), K(None))),
+    (G + 'listgrader.ListGrader', 'grouping', ('list', P_INT)),
+    (G + 'attemptcredit.LinearCredit', 'decrease_credit_after', P_INT), (G + 'attemptcredit.LinearCredit', 'decrease_credit_steps', P_INT),
+    (G + 'attemptcredit.LinearCredit', 'minimum_credit', UNIT_F), (G + 'attemptcredit.GeometricCredit', 'factor', UNIT_F),
+    (G + 'matrixsampling.SquareMatrixSamplingSet', 'dimension', ALL(T('int'), RANGE(2, INF))),
+    (G + 'matrixsampling.SquareMatrices', 'determinant', ANY(K(None), K(0), K(1))),
+    (G + 'sampling.RandomFunction', 'input_dim', P_INT), (G + 'sampling.RandomFunction', 'output_dim', P_INT),
+    (G + 'sampling.RandomFunction', 'num_terms', P_INT), (G + 'sampling.RandomFunction', 'amplitude', P_NUM),
+    (G + 'helpers.calc.specify_domain.SpecifyDomain', 'min_length', ANY(K(None), P_INT)),
+    (G + 'comparers.comparers.MatrixEntryComparer', 'entry_partial_credit', ANY(ALL(T('float'), RANGE(0, 1)), K(0), K(1), K('proportional'))),
+    (G + 'comparers.linear_comparer.LinearComparer', 'equals', ANY(K(None), RANGE(0, 1))),
+    (G + 'comparers.linear_comparer.LinearComparer', 'proportional', ANY(K(None), RANGE(0, 1))),
+]
+
+
+def d6_domains(ctx, idx, fam):
+    r = ctx.rule('D6.DOMAINS', 'the numeric / enumerated options are validated with their documented domains', floor=42)
+    with r:
+        for q, opt, want in DOMAIN_SPEC:
+            construct = '%s[%s] domain' % (_cls(q), opt)
+            tab = fam.tables.get(q)
+            if tab is None or not tab.is_dict:
+                r.undecided(construct, 'schema of %s not available' % _cls(q))
+                continue
+            o = tab.opts.get(opt)
+            if o is None:
+                r.violation(construct, "option '%s' is no longer part of the schema of %s" % (opt, _cls(q)), idx.cls(q).loc)
+                continue
+            got = nv(o.validator)
+            if got == want:
+                r.ok(construct, show_nv(want), o.loc())
+            elif has_opaque(got):
+                r.undecided(construct, 'validator not recognised: %s' % o.validator.text()[:80], o.loc())
+            else:
+                r.violation(construct, "the domain of '%s' in %s changed: values are validated with %s instead of %s" %
+                            (opt, _cls(q), show_nv(got), show_nv(want)), o.loc(), expected=show_nv(want), found=show_nv(got))
+
+
+# --------------------------------------------------------------------- D6 (Range)
+_FLIP = {ast.Lt: ast.Gt, ast.Gt: ast.Lt, ast.LtE: ast.GtE, ast.GtE: ast.LtE}
+_ACCEPT = {('min', True): ast.GtE, ('min', False): ast.Gt, ('max', True): ast.LtE, ('max', False): ast.Lt}
+_REJECT = {('min', True): ast.Lt, ('min', False): ast.LtE, ('max', True): ast.Gt, ('max', False): ast.GtE}
+_OPTXT = {ast.Lt: '<', ast.Gt: '>', ast.LtE: '<=', ast.GtE: '>='}
+
+
+def _raw_conjuncts(test):
+    """Conjuncts of a RAW test (no canonicalisation: `not a >= b` must stay distinguishable from `a < b`)."""
+    if isinstance(test, ast.BoolOp) and isinstance(test.op, ast.And):
+        out = []
+        for v in test.values:
+            out.extend(_raw_conjuncts(v))
+        return out
+    return [test]
+
+
+def _bound_compare(cmp_, v, self_):
+    """(bound 'min'|'max', operator class oriented as `v op bound`) for a raw Compare between v and self.min/self.max."""
+    if not (isinstance(cmp_, ast.Compare) and len(cmp_.ops) == 1 and type(cmp_.ops[0]) in _FLIP):
+        return None
+    left, right = cmp_.left, cmp_.comparators[0]
+
+    def is_v(n):
+        return isinstance(n, ast.Name) and n.id == v
+
+    def bound(n):
+        if isinstance(n, ast.Attribute) and isinstance(n.value, ast.Name) and n.value.id == self_ and n.attr in ('min', 'max'):
+            return n.attr
+        return None
+    if is_v(left) and bound(right):
+        return bound(right), type(cmp_.ops[0])
+    if is_v(right) and bound(left):
+        return bound(left), _FLIP[type(cmp_.ops[0])]
+    return None
+
+
+def _nan_refusal(fn_node, v):
+    """An explicit refusal of unordered values: `if v != v: raise` / `if isnan(v): raise` as a top-level statement."""
+    for s in fn_node.body:
+        if isinstance(s, ast.If) and any(isinstance(x, ast.Raise) for x in s.body):
+            for c in _raw_conjuncts(s.test) if not (isinstance(s.test, ast.BoolOp) and isinstance(s.test.op, ast.Or)) else s.test.values:
+                if isinstance(c, ast.Compare) and len(c.ops) == 1 and isinstance(c.ops[0], ast.NotEq) and \
+                        isinstance(c.left, ast.Name) and c.left.id == v and isinstance(c.comparators[0], ast.Name) and \
+                        c.comparators[0].id == v:
+                    return s
+                if isinstance(c, ast.Call) and nf.callee_name(c) == 'isnan' and len(c.args) == 1 and \
+                        isinstance(c.args[0], ast.Name) and c.args[0].id == v:
+                    return s
+    return None
+
+
+def d6_range(ctx, idx, fam):
+    r = ctx.rule('D6.RANGE', 'the vendored Range validator refuses values that are not ordered against its bounds (NaN) and pairs '
+                             'min_included/max_included with >=, > / <=, <', floor=4)
+    with r:
+        fi = idx.func('voluptuous.validators.Range.__call__')
+        if len(fi.params) != 2:
+            raise AnalysisError('Range.__call__ signature changed')
+        self_, v = fi.params
+        refusal = _nan_refusal(fi.node, v)
+        seen = set()
+        for rs in lib.raises_of(fi.node):
+            if refusal is not None and any(rs is x for x in ast.walk(refusal)):
+                continue
+            # raw chain of enclosing ifs, innermost first
+            chain = []
+            child = rs
+            for a in ancestors(rs):
+                if a is fi.node:
+                    break
+                if isinstance(a, ast.If):
+                    chain.append((a, any(child is s for s in a.body)))
+                child = a
+            where = lib.loc(fi, rs)
+            if not chain or not chain[0][1]:
+                r.undecided('Range.__call__: raise', 'raise not directly under a bound test', where)
+                continue
+            conj = [c for (a, pos) in chain if pos for c in _raw_conjuncts(a.test)]
+            tests = []
+            for c in conj:
+                neg = isinstance(c, ast.UnaryOp) and isinstance(c.op, ast.Not)
+                bc = _bound_compare(c.operand if neg else c, v, self_)
+                if bc is not None:
+                    tests.append((neg, bc[0], bc[1], c))
+            if len(tests) != 1:
+                r.undecided('Range.__call__: raise', 'bound comparison not recognised in `%s`' % short(chain[0][0].test), where)
+                continue
+            neg, bound, op, node = tests[0]
+            # inclusive flag from the enclosing `if self.<bound>_included:` (body) / its else
+            flag = None
+            for a, pos in chain:
+                t = a.test
+                inv = False
+                if isinstance(t, ast.UnaryOp) and isinstance(t.op, ast.Not):
+                    t, inv = t.operand, True
+                if isinstance(t, ast.Attribute) and isinstance(t.value, ast.Name) and t.value.id == self_ and \
+                        t.attr == bound + '_included':
+                    flag = (pos != inv)
+            for c in conj:
+                t, inv = c, False
+                if isinstance(t, ast.UnaryOp) and isinstance(t.op, ast.Not):
+                    t, inv = t.operand, True
+                if isinstance(t, ast.Attribute) and isinstance(t.value, ast.Name) and t.value.id == self_ and \
+                        t.attr == bound + '_included':
+                    flag = not inv
+            if flag is None:
+                r.undecided('Range.__call__: %s bound' % bound, 'inclusive/exclusive selection not recognised', where)
+                continue
+            construct = 'Range.__call__ [%s, %s]' % (bound, 'inclusive' if flag else 'exclusive')
+            seen.add((bound, flag))
+            guarded = any(nf.classify('%s.%s is not None' % (self_, bound), c) == nf.MATCH for c in conj)
+            if not guarded:
+                r.undecided(construct, 'no `self.%s is not None` guard next to the comparison' % bound, where)
+                continue
+            if neg:
+                want = _ACCEPT[(bound, flag)]
+                if op is want:
+                    r.ok(construct, 'refuses unless v %s self.%s (NaN refused)' % (_OPTXT[want], bound), where)
+                else:
+                    r.violation(construct, 'with %s_included=%s the accepted values are `v %s self.%s` instead of `v %s self.%s`: the '
+                                'bound itself is %s' % (bound, flag, _OPTXT[op], bound, _OPTXT[want], bound,
+                                                        'refused' if flag else 'accepted'), where,
+                                expected='not v %s self.%s' % (_OPTXT[want], bound), found=short(node))
+            else:
+                want = _REJECT[(bound, flag)]
+                if refusal is not None:
+                    if op is want:
+                        r.ok(construct, 'refuses when v %s self.%s, unordered values refused explicitly before' % (_OPTXT[op], bound), where)
+                    else:
+                        r.violation(construct, 'with %s_included=%s the refused values are `v %s self.%s` instead of `v %s self.%s`'
+                                    % (bound, flag, _OPTXT[op], bound, _OPTXT[want], bound), where,
+                                    expected='v %s self.%s' % (_OPTXT[want], bound), found=short(node))
+                else:
+                    r.violation(construct, 'the bound test is the positive form `%s`: every comparison with NaN is False, so '
+                                "float('nan') passes this Range -- FormulaGrader(tolerance=float('nan')), an answer with "
+                                "grade_decimal=float('nan') or GeometricCredit(factor=float('nan')) are constructed instead of being "
+                                'refused' % short(node), where, expected='not v %s self.%s' % (_OPTXT[_ACCEPT[(bound, flag)]], bound),
+                                found=short(node))
+        missing = {('min', True), ('min', False), ('max', True), ('max', False)} - seen
+        for bound, flag in sorted(missing):
+            if any(o.construct.startswith('Range.__call__') and o.status != 'discharged' for o in r.obligations):
+                break
+            r.violation('Range.__call__ [%s, %s]' % (bound, 'inclusive' if flag else 'exclusive'),
+                        'no refusal for values outside the %s %s bound: out-of-range values are accepted'
+                        % ('inclusive' if flag else 'exclusive', bound), fi.loc)
+        rets = lib.returns_of(fi.node)
+        if not (rets and all(isinstance(x.value, ast.Name) and x.value.id == v for x in rets)):
+            r.undecided('Range.__call__: result', 'does not return the validated value unchanged', fi.loc)
+
+
+# ----------------------------------------------------------------------------- D7
+ANSWER_SPEC = {'grade_decimal': (1, ALL(T('Number'), RANGE(0, 1))), 'msg': ('', T('str')),
+               'ok': ('computed', ANY(K('computed'), K(True), K(False), K('partial')))}
+
+
+def d7_answers(ctx, idx, fam):
+    r = ctx.rule('D7.ANSWERS', 'answers are normalised to a tuple of dictionaries with the documented keys and defaults', floor=12)
+    with r:
+        ig = idx.cls(IG)
+        ans = schema_answer_table(idx, fam)
+        doc, _ = tables.parse_docstring_options(tables.class_docstring(ig))
+        for key, (dflt, dom) in sorted(ANSWER_SPEC.items()):
+            o = ans.opts.get(key)
+            construct = 'ItemGrader.schema_answer[%s]' % key
+            if o is None:
+                r.violation(construct, "the key '%s' is gone from the answer schema" % key, ig.loc)
+                continue
+            if not o.has_default:
+                r.violation(construct, "the answer key '%s' has no default" % key, o.loc(), expected=repr(dflt))
+                continue
+            cv = o.default_value
+            d = doc.get(key)
+            docv = d.value if d is not None and d.is_literal else dflt
+            if not tables.values_equal(cv, dflt) or not tables.values_equal(cv, docv):
+                r.violation(construct, "the default of the answer key '%s' is %s, documented as %s: answers given as plain strings or "
+                            "partial dictionaries are graded with a different %s" % (key, tables.show(cv), tables.show(dflt), key),
+                            o.loc(), expected=tables.show(dflt), found=tables.show(cv))
+                continue
+            got = nv(o.validator)
+            if got == dom:
+                r.ok(construct, 'default %s, domain %s' % (tables.show(dflt), show_nv(dom)), o.loc())
+            elif has_opaque(got):
+                r.undecided(construct, 'validator not recognised: %s' % o.validator.text()[:60], o.loc())
+            else:
+                r.violation(construct, "the domain of the answer key '%s' changed: %s instead of %s" % (key, show_nv(got), show_nv(dom)),
+                            o.loc(), expected=show_nv(dom), found=show_nv(got))
+        exp = ans.opts.get('expect')
+        r.check(exp is not None and exp.validator.kind == 'selfattr' and exp.validator.name == 'validate_expect_tuple',
+                'ItemGrader.schema_answer[expect]', 'validated by validate_expect_tuple',
+                "'expect' is validated by %s" % (exp.validator.text() if exp is not None else 'nothing'),
+                exp.loc() if exp is not None else ig.loc)
+        # tuple wrapping in schema_answers and validate_expect_tuple
+        for meth, inner in (('schema_answers', 'validate_single_answer'), ('validate_expect_tuple', 'validate_expect')):
+            f = idx.func('%s.%s' % (IG, meth))
+            p0 = f.params[1]
+            b = {'_A': ast.Name(id=p0, ctx=ast.Load())}
+            paths = nf.decision_paths(f.node.body)
+            wrap = [p for p in paths if any(nf.classify('not isinstance(_A, tuple)', g, dict(b)) == nf.MATCH for g in p.guards)]
+            keep = [p for p in paths if any(nf.classify('isinstance(_A, tuple)', g, dict(b)) == nf.MATCH for g in p.guards)]
+            construct = 'ItemGrader.%s' % meth
+            if len(paths) != 2 or len(wrap) != 1 or len(keep) != 1 or any(p.leaf.kind != 'ret' for p in paths):
+                if len(paths) == 1 and paths[0].leaf.kind == 'ret' and \
+                        nf.classify('Schema((self.%s,))(_A)' % inner, paths[0].leaf.expr, dict(b)) == nf.MATCH:
+                    r.violation(construct, 'a value that is not a tuple is no longer wrapped into a one-element tuple: the documented '
+                                'single-answer form is refused', f.loc, expected='if not isinstance(x, tuple): x = (x,)')
+                else:
+                    r.undecided(construct, 'shape not recognised', f.loc)
+                continue
+            r1 = nf.classify('Schema((self.%s,))((_A,))' % inner, wrap[0].leaf.expr, dict(b))
+            r2 = nf.classify('Schema((self.%s,))(_A)' % inner, keep[0].leaf.expr, dict(b))
+            if r1 == nf.MATCH and r2 == nf.MATCH:
+                r.ok(construct, 'non-tuples wrapped, every element validated by %s' % inner, f.loc)
+            elif isinstance(r1, tuple) or isinstance(r2, tuple):
+                r.violation(construct, 'the canonical tuple form changed: %s' % (r1[1] if isinstance(r1, tuple) else r2[1]), f.loc,
+                            expected='Schema((self.%s,))(as tuple)' % inner)
+            else:
+                r.undecided(construct, 'returned expression not recognised: %s' % short(wrap[0].leaf.expr), f.loc)
+        # validate_single_answer: dictionary form first, then {'expect': answer, 'ok': True}; ok recomputed
+        vs = idx.func(IG + '.validate_single_answer')
+        a = vs.params[1]
+        b = {'_A': ast.Name(id=a, ctx=ast.Load())}
+        first = nf.find_all(nf.pat('self.schema_answer(%s)' % a), vs.node)
+        fall = [n for n, bb in nf.find_all(nf.pat("self.schema_answer({'expect': %s, 'ok': True})" % a), vs.node)]
+        alt_fall = [n for n in walk_own(vs.node) if isinstance(n, ast.Call) and nf.callee_name(n) == 'schema_answer'
+                    and n.args and isinstance(n.args[0], ast.Dict)]
+        if fall:
+            h = lib.in_handler(fall[0])
+            r.check(h is not None and 'MultipleInvalid' in lib.handler_class_names(h) and bool(first),
+                    'ItemGrader.validate_single_answer [fallback]', "plain answers become {'expect': answer, 'ok': True}",
+                    'the plain-answer fallback is not the handler of a failed dictionary validation', lib.loc(vs, fall[0]))
+        elif alt_fall:
+            r.violation('ItemGrader.validate_single_answer [fallback]', "a plain answer is converted to `%s` instead of "
+                        "{'expect': answer, 'ok': True}" % short(alt_fall[0].args[0]), lib.loc(vs, alt_fall[0]),
+                        expected="{'expect': answer, 'ok': True}", found=short(alt_fall[0].args[0]))
+        else:
+            r.violation('ItemGrader.validate_single_answer [fallback]', 'plain (non-dictionary) answers are no longer converted into the '
+                        "dictionary form", vs.loc, expected="self.schema_answer({'expect': answer, 'ok': True})")
+        recs = [n for n in walk_own(vs.node) if isinstance(n, ast.If) and any(
+            isinstance(s, ast.Assign) and lib.subscript_key(s.targets[0]) == 'ok' for s in n.body)]
+        if len(recs) != 1:
+            r.violation('ItemGrader.validate_single_answer [ok]', "'ok' is no longer computed from grade_decimal", vs.loc)
+        else:
+            res = nf.classify("_V['ok'] == 'computed' or _V['grade_decimal'] != 1", recs[0].test)
+            st = [s for s in recs[0].body if isinstance(s, ast.Assign) and lib.subscript_key(s.targets[0]) == 'ok'][0]
+            val_ok = nf.classify(["self.grade_decimal_to_ok(_V['grade_decimal'])", "ItemGrader.grade_decimal_to_ok(_V['grade_decimal'])",
+                                  "AbstractGrader.grade_decimal_to_ok(_V['grade_decimal'])"], st.value) == nf.MATCH
+            if res == nf.MATCH and val_ok:
+                r.ok('ItemGrader.validate_single_answer [ok]', "recomputed when 'computed' or grade_decimal != 1", lib.loc(vs, recs[0]))
+            elif isinstance(res, tuple):
+                r.violation('ItemGrader.validate_single_answer [ok]', "the condition for recomputing 'ok' changed: %s" % res[1],
+                            lib.loc(vs, recs[0]), expected="ok == 'computed' or grade_decimal != 1", found=short(recs[0].test))
+            elif not val_ok and res == nf.MATCH:
+                r.violation('ItemGrader.validate_single_answer [ok]', "'ok' is recomputed as `%s`" % short(st.value), lib.loc(vs, st),
+                            expected="self.grade_decimal_to_ok(validated_answer['grade_decimal'])")
+            else:
+                r.undecided('ItemGrader.validate_single_answer [ok]', 'not recognised: %s' % short(recs[0].test), lib.loc(vs, recs[0]))
+        rets = lib.returns_of(vs.node)
+        r.check(len(rets) == 1 and isinstance(rets[0].value, ast.Name), 'ItemGrader.validate_single_answer [result]',
+                'returns the validated dictionary', 'validate_single_answer does not return the validated answer', vs.loc)
+        # ItemGrader.__init__ stores the post-validated answers
+        ii = idx.func(IG + '.__init__')
+        st = [s for s in walk_own(ii.node) if isinstance(s, ast.Assign) and nf.config_key(s.targets[0]) == 'answers']
+        r.check(len(st) == 1 and isinstance(st[0].value, ast.Call) and nf.callee_name(st[0].value) == 'post_schema_ans_val',
+                'ItemGrader.__init__ [answers]', "config['answers'] = post_schema_ans_val(config['answers'])",
+                "the result of post_schema_ans_val is not stored back into config['answers']", ii.loc)
+        # ListGrader.schema_answers: list -> tuple of lists; stored back
+        ls = idx.func(LGQ + 'schema_answers')
+        p0 = ls.params[1]
+        wraps = [s for s in walk_own(ls.node) if isinstance(s, ast.Assign) and isinstance(s.targets[0], ast.Name) and s.targets[0].id == p0
+                 and nf.classify('(%s,)' % p0, s.value) == nf.MATCH]
+        good = bool(wraps) and any(nf.classify('isinstance(%s, list)' % p0, g) == nf.MATCH for g in guards_of(wraps[0], ls.node))
+        r.check(good, 'ListGrader.schema_answers [tuple form]', 'a single list of answers becomes a one-element tuple',
+                'a list of answers is no longer wrapped into a tuple of lists', ls.loc)
+        li = idx.func(LGQ + '__init__')
+        st = [s for s in walk_own(li.node) if isinstance(s, ast.Assign) and nf.config_key(s.targets[0]) == 'answers']
+        r.check(len(st) == 1 and isinstance(st[0].value, ast.Call) and nf.callee_name(st[0].value) == 'schema_answers',
+                'ListGrader.__init__ [answers]', "config['answers'] = schema_answers(config['answers'])",
+                "the normalised answers are not stored back into config['answers']", li.loc)
+
+
+# ------------------------------------------------------------------------ self-test
+_ARD_OLD = ("        base = {}\n        config_dicts.reverse()\n        for entry in config_dicts:\n            if entry is not None:\n"
+            "                base.update(entry)\n\n        # Report that modified defaults are being used\n"
+            "        self.save_modified_defaults(base)\n\n        # Apply the provided configuration\n        base.update(config)\n")
+_ARD_NEW = ("        base = {}\n        base.update(config)\n        config_dicts.reverse()\n        for entry in config_dicts:\n"
+            "            if entry is not None:\n                base.update(entry)\n\n        self.save_modified_defaults(base)\n")
+
+MUTANTS = [
+    Mutant('required-to-optional', MGF, "Required('negative_powers', default=True): bool,", "Optional('negative_powers'): bool,", 'D1'),
+    Mutant('default-dropped', SG, "Required('min_words', default=0): NonNegative(int),", "Required('min_words'): NonNegative(int),", 'D1'),
+    Mutant('answer-key-optional', BASE, "Required('msg', default=''): str,", "'msg': str,", 'D1'),
+    Mutant('samples-default-code', MH, "Required('samples', default=5): Positive(int),", "Required('samples', default=1): Positive(int),", 'D2'),
+    Mutant('samples-default-docstring', FGF, "random variables (default 5)", "random variables (default 10)", 'D2'),
+    Mutant('listgrader-partial-credit-default', LG, "Required('partial_credit', default=True): bool,\n            Required('subgraders')",
+           "Required('partial_credit', default=False): bool,\n            Required('subgraders')", 'D2'),
+    Mutant('minimum-credit-default', ATT, "Required('minimum_credit', default=0.2)", "Required('minimum_credit', default=0.25)", 'D2'),
+    Mutant('vector-shape-default', MSAM, "Required('shape', default=(3,))", "Required('shape', default=(2,))", 'D2'),
+    Mutant('linear-proportional-default', LIN, "Required('proportional', default=0.5)", "Required('proportional', default=0.0)", 'D2'),
+    Mutant('infty-val-default', IGF, "Required('infty_val', default=1e3)", "Required('infty_val', default=1e4)", 'D2'),
+    Mutant('sector-argument-default', SAM, "Required('argument', default=[0, np.pi/2])", "Required('argument', default=[0, np.pi])", 'D2'),
+    Mutant('strip-default', SG, "Required('strip', default=True): bool,", "Required('strip', default=False): bool,", 'D2'),
+    Mutant('extra-allowed-abstractgrader', BASE, "Required('attempt_based_credit_msg', default=True): bool\n        })",
+           "Required('attempt_based_credit_msg', default=True): bool\n        }, extra=True)", 'D3'),
+    Mutant('extra-marker-toplevel', IGF, "            Required('complex_integrand', default=False): bool,",
+           "            Required('complex_integrand', default=False): bool,\n            Extra: object,", 'D3'),
+    Mutant('extend-with-extra', LG, "            Required('subgrader'): ItemGrader\n        })", "            Required('subgrader'): ItemGrader\n        }, extra=1)", 'D3'),
+    Mutant('kwargs-always', BASE, "        if config is None:\n            use_config = kwargs\n        else:\n            use_config = config",
+           "        use_config = kwargs", 'D4'),
+    Mutant('selection-inverted', BASE, "        if config is None:\n            use_config = kwargs\n        else:\n            use_config = config",
+           "        if config is None:\n            use_config = config\n        else:\n            use_config = kwargs", 'D4'),
+    Mutant('defaults-over-user-values', BASE, _ARD_OLD, _ARD_NEW, 'D4'),
+    Mutant('defaults-setdefault', BASE, "        base.update(config)\n", "        for k in config:\n            base.setdefault(k, config[k])\n", 'D4'),
+    Mutant('coerce-skipped', BASE, "        use_config = ObjectWithSchema.coerce2unicode(use_config)\n", "", 'D4'),
+    Mutant('validated-config-not-stored', BASE, "        self.config = self.validate_config(use_config)",
+           "        self.validate_config(use_config)\n        self.config = use_config", 'D4'),
+    Mutant('registered-defaults-not-applied', BASE, "            use_config = self.apply_registered_defaults(use_config)", "            pass", 'D4'),
+    Mutant('matrixgrader-peeks-kwargs', MGF, "unvalidated_config = config if config is not None else kwargs", "unvalidated_config = kwargs", 'D4'),
+    Mutant('intervalgrader-kwargs-only', IVF, "use_config = dict(config if config else kwargs)", "use_config = dict(kwargs)", 'D4'),
+    Mutant('listgrader-init-skips-super', LG, "        super(ListGrader, self).__init__(config, **kwargs)\n", "        self.config = dict(config or kwargs)\n", 'D4'),
+    Mutant('whitelist-blacklist-check-removed', MH, "    if blacklist and whitelist:\n        raise ConfigError(\"Cannot whitelist and blacklist at the same time\")\n", "", 'D5'),
+    Mutant('whitelist-blacklist-or', MH, "    if blacklist and whitelist:\n        raise ConfigError", "    if blacklist or whitelist:\n        raise ConfigError", 'D5'),
+    Mutant('unordered-check-removed', LG, "            if not self.config['ordered']:\n                raise ConfigError('Cannot use unordered lists with multiple graders')\n", "", 'D5'),
+    Mutant('contiguity-unreachable', LG, "        if not group_nums == set(range(1, max(group_nums) + 1)):", "        if False:", 'D5'),
+    Mutant('validate-grouping-not-called', LG, "            self.validate_grouping()\n", "", 'D5'),
+    Mutant('nested-delimiters-inverted', LG, "                if subgrader.config['delimiter'] in delimiters:", "                if subgrader.config['delimiter'] not in delimiters:", 'D5'),
+    Mutant('squarematrices-traceless-allowed', MSAM, "            if self.config['traceless']:\n                raise ConfigError(\"Unable to generate zero determinant traceless matrices\")\n", "", 'D5'),
+    Mutant('squarematrices-parity', MSAM, "                if self.config['dimension'] % 2 == 0:", "                if self.config['dimension'] % 2 == 1:", 'D5'),
+    Mutant('collision-check-removed', MH, "        validate_no_collisions(self.config, keys=['variables', 'user_constants'])\n", "", 'D5'),
+    Mutant('collision-keys', MH, "keys=['variables', 'user_constants'])", "keys=['variables', 'numbered_vars'])", 'D5'),
+    Mutant('override-check-wrong-table', MH, "warn_if_override(self.config, 'user_functions', self.default_functions)",
+           "warn_if_override(self.config, 'user_functions', self.default_variables)", 'D5'),
+    Mutant('suppress-warnings-inverted', MH, "    if duplicates and not config.get('suppress_warnings', False):", "    if duplicates and config.get('suppress_warnings', False):", 'D5'),
+    Mutant('opening-bracket-checked-against-closing', IVF, "                        if final_exp not in self.config['opening_brackets']:",
+           "                        if final_exp not in self.config['closing_brackets']:", 'D5'),
+    Mutant('min-length-shape-rule', SD, "        if self.config['min_length'] is not None and len(shapes) != 1:", "        if self.config['min_length'] is not None and len(shapes) > 1:", 'D5'),
+    Mutant('math-validation-not-called', FGF, "        # Perform standard math validation\n        self.validate_math_config()\n", "", 'D5'),
+    Mutant('subgrader-count-check-error-class', LG, "                raise ConfigError('The number of subgraders and answers are different')", "                raise IndexError('The number of subgraders and answers are different')", 'D5'),
+    Mutant('positive-int-allows-zero', VF, "        return All(thetype, Range(1, float('inf')))", "        return All(thetype, Range(0, float('inf')))", 'D6'),
+    Mutant('nonnegative-starts-at-one', VF, "    return All(thetype, Range(0, float('inf')))\n", "    return All(thetype, Range(1, float('inf')))\n", 'D6'),
+    Mutant('positive-number-allows-zero', VF, ", NotIn([0]))", ")", 'D6'),
+    Mutant('number-range-length', VF, "Length(min=2, max=2)", "Length(min=2)", 'D6'),
+    Mutant('list-of-type-allows-empty', VF, "            schema = Schema(All([given_type], Length(min=1)))", "            schema = Schema(All([given_type]))", 'D6'),
+    Mutant('percentage-sign', VF, "                if percent < 0:", "                if percent <= 0:", 'D6'),
+    Mutant('samples-domain', MH, "Required('samples', default=5): Positive(int),", "Required('samples', default=5): NonNegative(int),", 'D6'),
+    Mutant('tolerance-domain', MH, "Any(PercentageString, NonNegative(Number)),\n        Required('samples'", "Any(PercentageString, Number),\n        Required('samples'", 'D6'),
+    Mutant('dimension-domain', MSAM, "All(int, Range(2, float('inf')))", "All(int, Range(1, float('inf')))", 'D6'),
+    Mutant('seeded-C20a-range-positive-comparisons', VOL,
+           "            if self.min is not None and not v >= self.min:\n                raise RangeInvalid(\n                    self.msg or 'value must be at least %s' % self.min)\n        else:\n            if self.min is not None and not v > self.min:\n                raise RangeInvalid(\n                    self.msg or 'value must be higher than %s' % self.min)\n        if self.max_included:\n            if self.max is not None and not v <= self.max:\n                raise RangeInvalid(\n                    self.msg or 'value must be at most %s' % self.max)\n        else:\n            if self.max is not None and not v < self.max:",
+           "            if self.min is not None and v < self.min:\n                raise RangeInvalid(\n                    self.msg or 'value must be at least %s' % self.min)\n        else:\n            if self.min is not None and v <= self.min:\n                raise RangeInvalid(\n                    self.msg or 'value must be higher than %s' % self.min)\n        if self.max_included:\n            if self.max is not None and v > self.max:\n                raise RangeInvalid(\n                    self.msg or 'value must be at most %s' % self.max)\n        else:\n            if self.max is not None and v >= self.max:", 'D6'),
+    Mutant('range-min-positive-form', VOL, "if self.min is not None and not v >= self.min:", "if self.min is not None and v < self.min:", 'D6'),
+    Mutant('range-max-positive-form', VOL, "if self.max is not None and not v <= self.max:", "if self.max is not None and self.max < v:", 'D6'),
+    Mutant('range-inclusive-pairing', VOL, "if self.min is not None and not v >= self.min:", "if self.min is not None and not v > self.min:", 'D6'),
+    Mutant('range-exclusive-pairing', VOL, "if self.max is not None and not v < self.max:", "if self.max is not None and not v <= self.max:", 'D6'),
+    Mutant('range-max-check-removed', VOL, "            if self.max is not None and not v <= self.max:\n                raise RangeInvalid(\n                    self.msg or 'value must be at most %s' % self.max)\n",
+           "            pass\n", 'D6'),
+    Mutant('grade-decimal-range', BASE, "All(numbers.Number, Range(0, 1)),", "All(numbers.Number, Range(0, 2)),", 'D7'),
+    Mutant('answer-grade-default', BASE, "Required('grade_decimal', default=1)", "Required('grade_decimal', default=0)", 'D7'),
+    Mutant('answer-ok-default', BASE, "Required('ok', default='computed')", "Required('ok', default=True)", 'D7'),
+    Mutant('answers-not-wrapped', BASE, "        if not isinstance(answer_tuple, tuple):\n            answer_tuple = (answer_tuple,)\n", "", 'D7'),
+    Mutant('plain-answer-ok-false', BASE, "{'expect': answer, 'ok': True}", "{'expect': answer, 'ok': False}", 'D7'),
+    Mutant('post-validated-answers-dropped', BASE, "        self.config['answers'] = self.post_schema_ans_val(self.config['answers'])",
+           "        self.post_schema_ans_val(self.config['answers'])", 'D7'),
+    Mutant('ok-recompute-condition', BASE, "if validated_answer['ok'] == 'computed' or validated_answer['grade_decimal'] != 1:",
+           "if validated_answer['ok'] == 'computed' and validated_answer['grade_decimal'] != 1:", 'D7'),
+]
+
+BENIGN = [
+    Benign('options-reordered', SG, "            Required('case_sensitive', default=True): bool,\n            Required('strip', default=True): bool,",
+           "            Required('strip', default=True): bool,\n            Required('case_sensitive', default=True): bool,"),
+    Benign('default-written-differently', IGF, "Required('infty_val', default=1e3)", "Required('infty_val', default=1000.0)"),
+    Benign('string-quotes', BASE, "Required('wrong_msg', default=\"\"): str", "Required('wrong_msg', default=''): str"),
+    Benign('and-commuted', MH, "    if blacklist and whitelist:\n        raise ConfigError", "    if whitelist and blacklist:\n        raise ConfigError"),
+    Benign('conditional-expression', BASE, "        if config is None:\n            use_config = kwargs\n        else:\n            use_config = config",
+           "        use_config = kwargs if config is None else config"),
+    Benign('docstring-default-colon', FGF, "random variables (default 5)", "random variables (default: 5)"),
+    Benign('range-keyword', VF, "        return All(thetype, Range(1, float('inf')))", "        return All(thetype, Range(min=1))"),
+    Benign('optional-with-default', MGF, "Required('negative_powers', default=True): bool,", "Optional('negative_powers', default=True): bool,"),
+    Benign('new-option', SG, "            Required('strip_all', default=False): bool,", "            Required('strip_all', default=False): bool,\n            Required('fold_accents', default=False): bool,"),
+    Benign('range-operands-flipped', VOL, "if self.min is not None and not v >= self.min:", "if self.min is not None and not self.min <= v:"),
+    Benign('range-explicit-nan-refusal', VOL,
+           "        if self.min_included:\n            if self.min is not None and not v >= self.min:",
+           "        if v != v:\n            raise RangeInvalid(self.msg or 'value must be a number')\n        if self.min_included:\n            if self.min is not None and v < self.min:"),
+    Benign('range-flag-negated', VOL,
+           "        if self.max_included:\n            if self.max is not None and not v <= self.max:\n                raise RangeInvalid(\n                    self.msg or 'value must be at most %s' % self.max)\n        else:\n            if self.max is not None and not v < self.max:\n                raise RangeInvalid(\n                    self.msg or 'value must be lower than %s' % self.max)",
+           "        if not self.max_included:\n            if self.max is not None and not v < self.max:\n                raise RangeInvalid(\n                    self.msg or 'value must be lower than %s' % self.max)\n        else:\n            if self.max is not None and not v <= self.max:\n                raise RangeInvalid(\n                    self.msg or 'value must be at most %s' % self.max)"),
+    Benign('log-in-init', BASE, "        # Validate the configuration\n        self.config = self.validate_config(use_config)",
+           "        _n = len(use_config) if isinstance(use_config, dict) else 0\n        self.config = self.validate_config(use_config)"),
+]
